@@ -913,3 +913,62 @@ def r_excel_color(ctx):
 
 
 C16_RULES.append(r_excel_color)
+
+
+def r_csv_write(ctx):
+    """'the CSV export reproduces the solution' with the separator the caller asked for, to a file and as a string alike: the one
+    pandas writer call of SchedulingSolution.to_csv gets the data frame of to_df, `sep=` the caller's separator, no index column,
+    the caller's file name in the file branch and nothing else (a writer option - header, columns, float format, quoting -
+    changes what a reader with the documented defaults gets back)."""
+    where = "SchedulingSolution.to_csv"
+    fn = ctx.project.method("SchedulingSolution", "to_csv")[1]
+    params = [a.arg for a in fn.args.args[1:]]
+    if len(params) < 2:
+        raise P.AnalysisError("R-CSV-WRITE: to_csv(csv_filename, separator) expected")
+    fname, sepn = S(params[0]), S(params[1])
+    runs = runs_of(ctx, Entry("method", cls="SchedulingSolution", name="to_csv"))
+    fails_closed(ctx, "R-CSV-WRITE", runs)
+    n = 0
+    for run in runs:
+        if run.rejected:
+            continue
+        n += 1
+        cfg = describe_config(run)[-60:]
+        to_file = dict(run.decisions).get(f"{params[0]} is None") is False
+        calls = [ev for ev in run.events_of("mcall") if ev.data["name"] == "to_csv"]
+        if len(calls) != 1 or calls[0].loops or calls[0].guards:
+            ctx.violation("R-CSV-WRITE", where, "one unconditional writer call per branch", f"on [{cfg}] {len(calls)} call(s) of .to_csv", "processscheduler/solution.py")
+            continue
+        ev = calls[0]
+        kw = dict(ev.data["kwargs"])
+        pos = list(ev.data["args"])
+        if pos:
+            kw.setdefault("path_or_buf", pos[0])
+        if len(pos) > 1:
+            kw.setdefault("sep", pos[1])
+        recv_ok = isinstance(ev.data["recv"], tuple) and ev.data["recv"][:2] == ("call", "pandas.DataFrame")
+        problems = []
+        if not recv_ok:
+            problems.append(f"the writer is called on {show(ev.data['recv'])[:60]}, not on the data frame of to_df()")
+        if kw.get("sep") != sepn:
+            problems.append(f"sep is {show(kw['sep']) if 'sep' in kw else 'left to the default (comma)'}, not the caller's `{params[1]}`")
+        if kw.get("index") != K(False):
+            problems.append("the index column is written")
+        if to_file and kw.get("path_or_buf") != fname:
+            problems.append(f"the file written is {show(kw.get('path_or_buf')) if 'path_or_buf' in kw else 'none'}, not `{params[0]}`")
+        if not to_file and ("path_or_buf" in kw or run.retval != ("mcall", ev.data["recv"], "to_csv", ev.data["args"], ev.data["kwargs"])):
+            problems.append("the text of the writer is not what is returned")
+        extra = sorted(set(kw) - {"sep", "index", "path_or_buf"}) + (["positional"] if len(pos) > 2 else [])
+        if extra:
+            problems.append(f"further writer options {extra}")
+        if problems:
+            ctx.violation("R-CSV-WRITE", where, "to_file" if to_file else "as_string", f"on [{cfg}] " + "; ".join(problems), "processscheduler/solution.py")
+        else:
+            ctx.ok("R-CSV-WRITE", f"{where} [{'file' if to_file else 'string'}]: to_df().to_csv(sep=separator, index=False{', file' if to_file else ''})")
+    ctx.floor("R-CSV-WRITE", "writer branches", n, 2)
+
+
+C16_RULES.append(r_csv_write)
+
+# the curve is drawn from the reported levels and change times: they must stay paired (R-CLEAN-PAIRED)
+C17_RULES.append(lambda ctx: __import__("rules.buffers", fromlist=["x"]).r_clean_paired(ctx))
